@@ -1,15 +1,13 @@
 (* Props/C19.v — property theorems for C19 (one live instance per database directory), for the
    lock protocol of the REPAIRED sources: LockFile::acquire no longer truncates LOCK before it owns
-   the lock (finding F19 fixed); Tree::new still creates every sub-directory before Core::new
-   takes the lock (finding F22, class refused_open_creates_directories).
-   `current` is generated from the sources; C19_model_is_the_repaired_code stops checking as soon
-   as the sources change variant.  Proofs by `exact`.
-   (Delivered as notes/C19_fixed.v; copy over coq/theories/Props/C19.v together with the fix: commit.) *)
+   the lock (finding F19, fix e1df165) and the sub-directories are created only after the lock is held
+   (finding F27, fix 1e26351).  `current` is generated from the sources;
+   C19_model_is_the_repaired_code stops checking as soon as the sources change variant.  Proofs by `exact`. *)
 From Coq Require Import List Bool Arith.
 From SKV Require Import Misc.Lock Misc.LockSpec Misc.Lock_proofs Misc.LockInst.
 Import ListNotations.
 
-Theorem C19_model_is_the_repaired_code : current = fixed.
+Theorem C19_model_is_the_repaired_code : current = fixed_dirs.
 Proof. reflexivity. Qed.
 
 (* never two holders, for every interleaving of any number of openers/processes *)
@@ -33,18 +31,20 @@ Proof. exact (lock_before_recovery current). Qed.
 Theorem C19_data_inside_lock : data_inside_lock_stmt current.
 Proof. exact (data_inside_lock current). Qed.
 
-(* a failed open (refused or invalid options) leaves LOCK, the directories and the store files as
-   they were, provided the opener asks for no sub-directory that does not exist yet (e.g. the same
-   options as the holder); and under every interleaving nobody but the lock owner changes anything
-   when all openers ask for the same sub-directories *)
+(* a failed open (refused or invalid options) leaves LOCK, the directories and the store files as they were, whatever
+   options the refused opener asked for; and under every interleaving nobody but the lock owner changes anything *)
+Theorem C19_refused_open_touches_nothing : refused_open_touches_nothing_stmt current.
+Proof. exact refused_open_touches_nothing_fixed_dirs. Qed.
+Theorem C19_no_foreign_modification : no_foreign_modification_stmt current.
+Proof. exact no_foreign_modification_fixed_dirs. Qed.
 Theorem C19_refused_open_same_layout_touches_nothing : refused_open_same_layout_touches_nothing_stmt current.
-Proof. exact refused_open_same_layout_touches_nothing_fixed. Qed.
-Theorem C19_no_foreign_modification_same_layout : no_foreign_modification_same_layout_stmt current.
-Proof. exact no_foreign_modification_same_layout_fixed. Qed.
+Proof. exact refused_open_same_layout_touches_nothing_fixed_dirs. Qed.
+Theorem C19_refused_open_outside_known : refused_open_outside_known_stmt current.
+Proof. exact (refused_open_outside_known current). Qed.
 
-(* without that proviso the property still FAILS (finding F22): opener 1 holds a store without value
-   log, opener 2 enables it, is refused — and vlog/ exists afterwards *)
-Theorem C19_refused_open_touches_nothing_refuted :
+(* regression record of F27: with the sub-directories created before the lock the property FAILS: opener 1
+   holds a store without value log, opener 2 enables it, is refused — and vlog/ exists afterwards *)
+Theorem C19_subdirs_before_lock_refuted :
   let s := run fixed wit_ops s0 in
   let s' := run fixed (open_ops 2 0 opts_vlog) s in
   is_live s 1 = true /\ st_op s 2 = None /\ st_op s' 2 = None /\
@@ -52,18 +52,8 @@ Theorem C19_refused_open_touches_nothing_refuted :
   f_vlog wit_before_fixed = false /\ f_vlog wit_after_fixed = true /\ f_lock wit_after_fixed = f_lock wit_before_fixed /\
   last (st_log s') (EvGone 0) = EvRefused 2.
 Proof. exact refused_open_touches_nothing_refuted_fixed. Qed.
-Theorem C19_refused_open_touches_nothing_fails : ~ refused_open_touches_nothing_stmt current.
+Theorem C19_subdirs_before_lock_fails : ~ refused_open_touches_nothing_stmt fixed.
 Proof. exact refused_open_touches_nothing_fails_fixed. Qed.
-(* ... and outside that class: a failed open never changes the data files, the lock owner or the
-   base directory; sub-directories are only added *)
-Theorem C19_refused_open_outside_known : refused_open_outside_known_stmt current.
-Proof. exact (refused_open_outside_known current). Qed.
-
-(* once the sub-directories are created after the lock, the property holds without proviso *)
-Theorem C19_fixed_dirs_refused_open_touches_nothing : refused_open_touches_nothing_stmt fixed_dirs.
-Proof. exact refused_open_touches_nothing_fixed_dirs. Qed.
-Theorem C19_fixed_dirs_no_foreign_modification : no_foreign_modification_stmt fixed_dirs.
-Proof. exact no_foreign_modification_fixed_dirs. Qed.
 
 (* regression record of F19: the code before the repair emptied LOCK in a refused open *)
 Theorem C19_pinned_refused_open_touches_nothing_fails :
